@@ -28,6 +28,7 @@ type prState struct {
 	Pending  []int    `json:"pending"`
 	Sessions [][2]any `json:"sessions"`
 	LPending [][2]any `json:"lpending"`
+	Answered []int    `json:"answered"`
 }
 type prObs struct {
 	Events          [][]any   `json:"events"`
@@ -53,7 +54,8 @@ func (Protocol) Extra(string, int64) []orch.Case { return nil }
 
 // Keep: behaviours that reach the logout exchange or consume the same Response twice are always replayed.
 func (Protocol) Keep(c *orch.Case) bool {
-	return bytes.Contains(c.Input, []byte("SPConsumeLogout")) && bytes.Contains(c.Input, []byte("IdPLogoutRespond"))
+	return (bytes.Contains(c.Input, []byte(`"SPConsumeLogout"`)) && bytes.Contains(c.Input, []byte("IdPLogoutRespond"))) ||
+		(bytes.Contains(c.Input, []byte("SPConsumeLogoutRequest")) && bytes.Contains(c.Input, []byte(`"SPConsume"`)))
 }
 
 type prSession struct {
@@ -83,6 +85,8 @@ func (Protocol) Run(c *orch.Case) *orch.Outcome {
 	net := map[string]string{} // message key -> encoded
 	nreq := 0
 	issued := map[string][2]string{} // subject/request -> NameID, SessionIndex the IdP issued
+	idpReq := map[string]int{}       // real ID of a LogoutRequest the IdP (or attacker) originated -> model number
+	answered := map[int]bool{}
 
 	strOf := func(r json.RawMessage) string { var s string; json.Unmarshal(r, &s); return s }
 	intOf := func(r json.RawMessage) int { var i int; json.Unmarshal(r, &i); return i }
@@ -232,6 +236,59 @@ func (Protocol) Run(c *orch.Case) *orch.Outcome {
 			}
 			mustSign(root, idp.DefaultSig(key.Key, key.DER))
 			net[fmt.Sprintf("LogoutResponse/%d/%s", i, by)] = idp.Encode(idp.Serialize(root, lay, rng), rng.Intn(2) == 0)
+		case "IdPLogoutRequest", "AttForgeLogoutRequest":
+			i, subj, by := intOf(e[1]), strOf(e[2]), strOf(e[3])
+			ev = append(ev, i, subj, by)
+			lay := layoutFor(rng, true)
+			b := idp.NewBuilder(lay, c.Seed+int64(len(net)))
+			ls := logoutSpec("req", fmt.Sprintf("_idplr-%d-%d", i, len(net)))
+			ls.NameID = idp.S(subj + "@example.com")
+			idpReq[ls.ID] = i
+			root := b.ResponseEl(ls)
+			switch by {
+			case "idp":
+				mustSign(root, idp.DefaultSig(w.IdpA.Key, w.IdpA.DER))
+			case "att":
+				mustSign(root, idp.DefaultSig(w.Att.Key, w.Att.DER))
+			}
+			net[fmt.Sprintf("IdPLogoutRequest/%d/%s/%s", i, subj, by)] = idp.Encode(idp.Serialize(root, lay, rng), rng.Intn(2) == 0)
+		case "SPConsumeLogoutRequest":
+			i, subj, by := intOf(e[1]), strOf(e[2]), strOf(e[3])
+			ev = append(ev, i, subj, by)
+			r, err := sp.ValidateEncodedLogoutRequestPOST(net[fmt.Sprintf("IdPLogoutRequest/%d/%s/%s", i, subj, by)])
+			// the caller acts only on a request the library reports as signature-validated
+			if err == nil && r != nil && r.SignatureValidated && r.NameID != nil {
+				kept := sessions[:0]
+				for _, s := range sessions {
+					if s.nameID != r.NameID.Value {
+						kept = append(kept, s)
+					}
+				}
+				sessions = kept
+				doc, err := sp.BuildLogoutResponseDocument(saml2.StatusCodeSuccess, r.ID)
+				if err != nil {
+					fail("build logout response: %v", err)
+					break
+				}
+				bts, _ := doc.WriteToBytes()
+				if root := idpReads(bts, "LogoutResponse"); root != nil {
+					irt, _ := root.Attr("InResponseTo")
+					dst, _ := root.Attr("Destination")
+					code := ""
+					if st := root.Child("Status"); st != nil {
+						if sc := st.Child("StatusCode"); sc != nil {
+							code, _ = sc.Attr("Value")
+						}
+					}
+					m, known := idpReq[irt]
+					if !known || dst != world.IdpSLO || code != saml2.StatusCodeSuccess {
+						o.ValuesRoundtrip = false
+						fail("LogoutResponse does not answer the IdP's request: InResponseTo %q Destination %q status %q", irt, dst, code)
+					} else {
+						answered[m] = true
+					}
+				}
+			}
 		case "SPConsumeLogout":
 			i, by := intOf(e[1]), strOf(e[2])
 			ev = append(ev, i, by)
@@ -251,7 +308,11 @@ func (Protocol) Run(c *orch.Case) *orch.Outcome {
 				}
 			}
 		}
-		st := prState{Pending: []int{}, Sessions: [][2]any{}, LPending: [][2]any{}}
+		st := prState{Pending: []int{}, Sessions: [][2]any{}, LPending: [][2]any{}, Answered: []int{}}
+		for m := range answered {
+			st.Answered = append(st.Answered, m)
+		}
+		sort.Ints(st.Answered)
 		for m := range pending {
 			st.Pending = append(st.Pending, m)
 		}
